@@ -136,10 +136,20 @@ def invalidate(env, cfg):
         _CACHE[cfg]["cur"] = None
 
 
-def run(env, cfg, cid, prog_builder, poison, seed=b""):
-    """Build and run a program on curve cid; returns (result-with-selection-call-stripped, meta)."""
+def run(env, cfg, cid, prog_builder, poison, seed=b"", prev=None):
+    """Build and run a program on curve cid; returns (result-with-selection-call-stripped, meta).
+    prev: identifier of a curve to select immediately BEFORE cid (state left behind by an earlier selection must not
+    influence the computation)."""
     p = Prog(poison=poison, seed=seed)
-    skip = select(env, cfg, p, cid)
+    if prev is not None and prev != cid:
+        p.call("ep_param_set", prev)
+        p.call("ep_param_set", cid)
+        r = env.runner(cfg)
+        discover(env, cfg)["cur"] = ((id(r), r.starts), cid)
+        _reset_pcctx(cfg)
+        skip = 2
+    else:
+        skip = select(env, cfg, p, cid)
     meta = prog_builder(p)
     try:
         res = env.runner(cfg).run(p)
